@@ -169,6 +169,14 @@ def observe_factor(x, claimed_axis, side_tops, hlegs_native, newleg):
         return f"rank {x.ndim}, expected {nfl}", None, None
     pos = claimed_axis % nfl
     npos = sum(len(side_tops[i]) for i in range(pos))
+    # logical grouping: every outer leg must hold exactly the native legs of the operand leg it comes from
+    flegs = x.get_legs()
+    for j, top in zip([j for j in range(nfl) if j != pos], side_tops):
+        n_nat = flegs[j].history().count("o")
+        if n_nat != len(top):
+            return f"leg {j} groups {n_nat} native legs ({flegs[j].history()}), the operand leg it comes from groups {len(top)}", None, None
+    if flegs[pos].history() != "o":
+        return f"connecting leg at {pos} is a fused leg ({flegs[pos].history()})", None, None
     xn = unfuse_all(x)
     nat = len(hlegs_native) + 1
     if xn.ndim != nat:
